@@ -42,6 +42,11 @@ where
 
 /-! ### case mapping that skips %XX -/
 
+/-- the next two bytes are hex digits (light_isxdigit(p[1]) && light_isxdigit(p[2])) -/
+def xdigit2 : Bytes → Bool
+  | h :: l :: _ => isXDigit h && isXDigit l
+  | _ => false
+
 /-- burl_offset_tolower(): lower-case ASCII letters, skipping over %XX; stops at NUL -/
 def lowerSkipPct : Bytes → Nat → Bytes
   | [], _ => []
@@ -49,11 +54,7 @@ def lowerSkipPct : Bytes → Nat → Bytes
   | b :: rest, 0 =>
     if b = 0 then b :: rest
     else if isUpper b then (b ||| 0x20) :: lowerSkipPct rest 0
-    else if b = pct then
-      match rest with
-      | h :: l :: _ => b :: lowerSkipPct rest (if isXDigit h && isXDigit l then 2 else 0)
-      | _ => b :: lowerSkipPct rest 0
-    else b :: lowerSkipPct rest 0
+    else b :: lowerSkipPct rest (if b = pct && xdigit2 rest then 2 else 0)
 
 /-- burl_offset_toupper() -/
 def upperSkipPct : Bytes → Nat → Bytes
@@ -62,11 +63,7 @@ def upperSkipPct : Bytes → Nat → Bytes
   | b :: rest, 0 =>
     if b = 0 then b :: rest
     else if isLower b then (b &&& 0xdf) :: upperSkipPct rest 0
-    else if b = pct then
-      match rest with
-      | h :: l :: _ => b :: upperSkipPct rest (if isXDigit h && isXDigit l then 2 else 0)
-      | _ => b :: upperSkipPct rest 0
-    else b :: upperSkipPct rest 0
+    else b :: upperSkipPct rest (if b = pct && xdigit2 rest then 2 else 0)
 
 /-! ### base64url -/
 
